@@ -20,14 +20,20 @@ import (
 )
 
 type concreteTx struct {
-	TypeURL string       `json:"type_url"`
-	Wire    string       `json:"wire"` // hex
-	Faults  []bool       `json:"faults"`
-	Inner   []concreteTx `json:"inner,omitempty"` // a multi-message transaction
+	TypeURL  string       `json:"type_url"`
+	Wire     string       `json:"wire"` // hex
+	Faults   []bool       `json:"faults"`
+	Inner    []concreteTx `json:"inner,omitempty"` // a multi-message transaction
+	Simulate bool         `json:"simulate,omitempty"`
 }
 
 // concretiseTx turns an abstract transaction into concrete bytes (recursively for a batch).
 func concretiseTx(inst *Instance, m M, f []bool) concreteTx {
+	if gets(m, "type") == "Simulate" {
+		tx := concretiseTx(inst, getm(m, "tx"), f)
+		tx.Simulate = true
+		return tx
+	}
 	if gets(m, "type") == "Batch" {
 		tx := concreteTx{Faults: f}
 		for _, im := range arr(m, "msgs") {
@@ -40,6 +46,8 @@ func concretiseTx(inst *Instance, m M, f []bool) concreteTx {
 }
 
 func runConcrete(inst *Instance, tx concreteTx) TxResult {
+	inst.discard = tx.Simulate
+	defer func() { inst.discard = false }()
 	if tx.Inner != nil {
 		var txs [][2]any
 		for _, in := range tx.Inner {
@@ -52,6 +60,7 @@ func runConcrete(inst *Instance, tx concreteTx) TxResult {
 	wire, _ := hex.DecodeString(tx.Wire)
 	return inst.RunTx(tx.TypeURL, wire, tx.Faults)
 }
+
 type concreteHistory struct {
 	ID      int          `json:"id"`
 	Genesis M            `json:"genesis"` // abstract state the chain is initialised to
